@@ -790,7 +790,10 @@ fn overlay(args: &Args, b: &mut Batcher, rng: &mut SmallRng) {
 fn perm(args: &Args, b: &mut Batcher, rng: &mut SmallRng) {
     let count = if args.thorough { 3000 } else { 400 } / args.shard.1.max(1);
     for i in 0..count {
-        let nsol = rng.gen_range(1..4usize);
+        let nsol = rng.gen_range(1..5usize);
+        // a set is a multiset: every fourth case holds the same solution twice (such a set passes set
+        // validation when the repeated solution proposes no mutation), e.g. [A, A, B] vs [A, B, A]
+        let dup = nsol >= 2 && i % 4 == 3;
         let keys: Vec<Vec<i64>> = vec![vec![1], vec![2]];
         let vals: Vec<Vec<i64>> = vec![vec![5], vec![6], vec![]];
         let mut preds = vec![];
@@ -798,7 +801,10 @@ fn perm(args: &Args, b: &mut Batcher, rng: &mut SmallRng) {
         let mut sols = vec![];
         for s in 0..nsol {
             // predicate: root -> leaf(data: computed mutation) ; post-reading root -> reporting leaf
-            let comp: Vec<(Vec<i64>, Vec<i64>)> = if rng.gen_bool(0.5) { vec![(keys[rng.gen_range(0..2)].clone(), vals[rng.gen_range(0..3)].clone())] } else { vec![] };
+            let mut comp: Vec<(Vec<i64>, Vec<i64>)> = if rng.gen_bool(0.5) { vec![(keys[rng.gen_range(0..2)].clone(), vals[rng.gen_range(0..3)].clone())] } else { vec![] };
+            if dup && s == 0 && i % 8 == 3 {
+                comp.clear();
+            }
             let mut specs: Vec<NodeSpec> = (0..4).map(|_| NodeSpec::default()).collect();
             specs[1].leaf = Leaf::Data(encode_muts(&comp));
             specs[1].report = false;
@@ -812,8 +818,14 @@ fn perm(args: &Args, b: &mut Batcher, rng: &mut SmallRng) {
                 progs.push(ProgD { bad: None, ops: node_program(50 + s, k, leaf, &specs[k]) });
             }
             preds.push(p);
-            let decl = if rng.gen_bool(0.5) { vec![(keys[rng.gen_range(0..2)].clone(), vals[rng.gen_range(0..3)].clone())] } else { vec![] };
+            let mut decl = if rng.gen_bool(0.5) { vec![(keys[rng.gen_range(0..2)].clone(), vals[rng.gen_range(0..3)].clone())] } else { vec![] };
+            if dup && s == 0 {
+                decl.clear();
+            }
             sols.push(SolD { contract: if rng.gen_bool(0.7) { 1001 } else { 1101 }, pred: s, predw: 2001 + 10 * s as i64, pdata: vec![], decl });
+        }
+        if dup {
+            sols[1] = sols[0].clone();
         }
         let base = Case { sols, preds, progs, pre: vec![(1001, vec![1], vec![31]), (1101, vec![2], vec![32])], all: false };
         let mut orders: Vec<Vec<usize>> = vec![(0..nsol).collect()];
@@ -982,6 +994,12 @@ fn sched(args: &Args, b: &mut Batcher, rng: &mut SmallRng) {
                         _ => Leaf::True,
                     };
                     spec.report = !matches!(spec.leaf, Leaf::Data(_)) || rng.gen_bool(0.5);
+                    // some constraint leaves read the post-state: they are deferred to the second
+                    // pass, where they start from their (first-pass) parents' outputs taken from the
+                    // per-solution cache - outputs that differ from solution to solution
+                    if matches!(spec.leaf, Leaf::True) && rng.gen_range(0..3) == 0 {
+                        spec.reads.push(read(true, None, &[s as i64, k as i64], 1));
+                    }
                 } else if rng.gen_range(0..40) == 0 {
                     spec.fail = true;
                 }
